@@ -12,6 +12,8 @@ type ObjectResolver struct {
 	reader       ObjectReader
 	visited      map[int]bool                     // Cycle detection
 	done         map[core.IndirectRef]core.Object // Deeply resolved objects of the current top-level call
+	need         map[core.IndirectRef]int         // Levels below the reference that resolving it took
+	reach        int                              // Deepest level seen since the innermost reference being resolved was entered
 	maxDepth     int                              // Maximum recursion depth
 	currentDepth int                              // Current recursion depth
 }
@@ -67,11 +69,16 @@ func (r *ObjectResolver) resolve(obj core.Object, deep bool) (core.Object, error
 	if r.currentDepth == 0 {
 		r.visited = make(map[int]bool)
 		r.done = make(map[core.IndirectRef]core.Object)
+		r.need = make(map[core.IndirectRef]int)
+		r.reach = 0
 	}
 
 	// Check depth limit
 	if r.currentDepth >= r.maxDepth {
 		return nil, fmt.Errorf("maximum recursion depth (%d) exceeded", r.maxDepth)
+	}
+	if r.currentDepth > r.reach {
+		r.reach = r.currentDepth
 	}
 
 	switch v := obj.(type) {
@@ -80,8 +87,23 @@ func (r *ObjectResolver) resolve(obj core.Object, deep bool) (core.Object, error
 		// call and the result shared. Resolving it again on every path is
 		// exponential in the depth of the graph: arrays of two references to the
 		// next array, 40 levels deep (a 1 KB file), asked for 2^40 resolutions.
+		//
+		// A shared result counts as the resolution it stands for: it is refused
+		// where resolving the reference again would pass the depth limit. Without
+		// that the answer depended on the order of the visit - a reference that
+		// is too deep where it stands was answered when the same reference had
+		// been met higher up before, and refused when it had not (the entries of
+		// a dictionary are visited in map order: the same call on the same file
+		// succeeded on one run and failed on the next).
 		if deep {
 			if res, ok := r.done[v]; ok {
+				top := r.currentDepth + r.need[v]
+				if top >= r.maxDepth {
+					return nil, fmt.Errorf("maximum recursion depth (%d) exceeded", r.maxDepth)
+				}
+				if top > r.reach {
+					r.reach = top
+				}
 				return res, nil
 			}
 		}
@@ -106,13 +128,20 @@ func (r *ObjectResolver) resolve(obj core.Object, deep bool) (core.Object, error
 
 		// If deep resolution, recursively resolve the resolved object
 		if deep {
+			outer := r.reach
+			r.reach = r.currentDepth
 			r.currentDepth++
 			resolved, err = r.resolve(resolved, deep)
 			r.currentDepth--
+			need := r.reach - r.currentDepth // levels below this reference that were visited
+			if r.reach < outer {
+				r.reach = outer
+			}
 			if err != nil {
 				return nil, err
 			}
 			r.done[v] = resolved
+			r.need[v] = need
 		}
 
 		return resolved, nil
@@ -183,6 +212,8 @@ func (r *ObjectResolver) resolve(obj core.Object, deep bool) (core.Object, error
 func (r *ObjectResolver) Reset() {
 	r.visited = make(map[int]bool)
 	r.done = nil
+	r.need = nil
+	r.reach = 0
 	r.currentDepth = 0
 }
 
